@@ -91,6 +91,32 @@ def mp4_inputs(d):
                     yield "mp4-field:%s+%d" % (a["name"].decode("latin-1"), off2), put(d, body + off2, 4, v, True)
 
 
+def mp4_short_tables(d):
+    """well-formed trees that contain offset tables / fragment headers shorter than their fixed fields: a short stco,
+    co64 (appended as the last child of a trailing moov) and a moof/traf/tfhd appended at the end of the file.  The
+    save in the contract is followed by a delete, which changes the tag size and so walks these tables."""
+    try:
+        atoms = W.mp4_atoms(d)
+    except W.Bad:
+        return
+    if not atoms or atoms[-1]["name"] != b"moov" or atoms[-1]["hdr"] != 8:
+        return
+    moov = atoms[-1]
+    at = lambda name, payload: struct.pack(">I4s", 8 + len(payload), name) + payload
+    for name in (b"stco", b"co64"):
+        for n in (0, 1, 3, 4, 5, 7, 8, 9, 11, 12, 13):
+            extra = at(name, b"\x00" * n)
+            nd = d + extra
+            yield "mp4-short-table:%s payload=%d" % (name.decode(), n), put(nd, moov["off"], 4, moov["size"] + len(extra), True)
+            extra = at(name, (b"\x00\x00\x00\x00" + struct.pack(">I", 0x7FFFFFFF))[:n] if n >= 8 else b"\x00" * n)
+            nd = d + extra
+            yield "mp4-table-count:%s payload=%d" % (name.decode(), n), put(nd, moov["off"], 4, moov["size"] + len(extra), True)
+    for n in (0, 1, 3, 4, 5, 8, 11, 12, 15, 16):
+        for flags in (b"\x00\x00\x00\x01", b"\x00\x02\x00\x01", b"\x00\x00\x00\x00"):
+            tf = at(b"tfhd", (flags + b"\x00\x00\x00\x01" + b"\x00" * 8)[:n])
+            yield "mp4-short-tfhd:payload=%d flags=%s" % (n, flags.hex()), d + at(b"moof", at(b"traf", tf))
+
+
 def chunked_inputs(d, kind):
     big = kind in ("aiff", "dff")
     hs = 12 if kind == "dff" else 8
@@ -237,6 +263,19 @@ def id3_frame_inputs(seed=1):
         size = struct.pack(">I", len(body)) if ver == 3 else bytes(W_syncsafe(len(body)))
         frame = name.encode("ascii") + size + b"\x00\x00" + body
         return b"ID3" + bytes([ver, 0, 0]) + bytes(W_syncsafe(len(frame))) + frame
+    # self-nesting structures: CHAP / CTOC frames carry embedded frames, which may again be CHAP / CTOC
+    def nested(fid, depth, ver=4):
+        f = b""
+        for i in range(depth):
+            head = (b"c%d\x00" % i + struct.pack(">IIII", 0, 0, 0xFFFFFFFF, 0xFFFFFFFF)) if fid == b"CHAP" else (b"t%d\x00" % i + b"\x03\x00")
+            body = head + f
+            size = struct.pack(">I", len(body)) if ver == 3 else bytes(W_syncsafe(len(body)))
+            f = fid + size + b"\x00\x00" + body
+        return b"ID3" + bytes([ver, 0, 0]) + bytes(W_syncsafe(len(f))) + f
+    for fid in (b"CHAP", b"CTOC"):
+        for depth in (2, 30, 70, 400, 3000):
+            for ver in (4, 3):
+                out.append(("id3-nested:%s x%d v2.%d" % (fid.decode(), depth, ver), nested(fid, depth, ver)))
     for bits in (0, 1, 7, 8, 9, 15, 16, 17, 23, 24, 25, 31, 32, 33, 63, 64, 65, 255):
         nb = (bits + 7) // 8
         for fill in (b"\xff", b"\x00", b"\x80", b"\x7f"):
@@ -274,7 +313,9 @@ def structured(name, d):
     fam = family_of(name)
     gens = [head_sweep(d), truncations(d)]
     if fam == "ogg": gens.append(ogg_inputs(d))
-    if fam == "mp4": gens.append(mp4_inputs(d))
+    if fam == "mp4":
+        gens.append(mp4_inputs(d))
+        gens.append(mp4_short_tables(d))
     if fam in ("aiff", "wave", "dff"): gens.append(chunked_inputs(d, fam))
     if fam == "flac": gens.append(flac_inputs(d))
     if fam == "asf":
